@@ -31,6 +31,34 @@ def status_field(F):
     return name
 
 
+def captures(F, clo):
+    """{upvar name: expression captured} for a closure node of the enclosing body"""
+    cf = F.fn(clo[1])
+    out = {}
+    for v in cf.raw['vars']:
+        p = v.get('place') or {}
+        if p.get('l') == 1:
+            idx = [x['i'] for x in p.get('p', []) if x.get('k') == 'field']
+            if idx and idx[0] < len(clo[2]):
+                out[v['n']] = clo[2][idx[0]]
+    return out
+
+
+def find_map_form(F, Ch):
+    """(find_call, predicate closure node, index projection ok) when the chooser returns
+    `<sorted>.iter().find(pred).map(|(i, _)| *i)` (or find_map): the first element, front to back, that satisfies pred"""
+    e = mirq.init_of(Ch.expr_local(0))
+    if e[0] == 'call' and e[4].get('name') == 'map' and e[2] and e[2][0][0] == 'call' and e[2][0][4].get('name') == 'find':
+        find = e[2][0]
+        pred = [a for a in find[2][1:] if a[0] == 'closure']
+        mp = [a for a in e[2][1:] if a[0] == 'closure']
+        if pred and mp:
+            r = mirq.closure_result(F.fn(mp[0][1]))
+            proj_ok = r[0] == 'field' and r[2] == '0' and r[1][0] == 'var'
+            return find, pred[0], proj_ok
+    return None
+
+
 def closure_ret(F, path):
     cf = F.fn(path)
     for b2, b in enumerate(cf.blocks):
@@ -48,6 +76,30 @@ def r1(cx, rec):
     F = cx.F
     Ch = chooser(F)
     somes = [(bi, e) for bi, si, e in mirq.agg_sites(Ch, r'^std::option::Option$', 'Some') if any(s2['lhs']['l'] == 0 for s2 in Ch.blocks[bi]['s'] if s2['k'] == 'assign')]
+    fm = find_map_form(F, Ch) if not somes else None
+    if fm:
+        # iterator form: Some(i) is the index of the first element for which the predicate holds; the predicate must imply both guards
+        from rules.C14 import closure_truth
+        find, pred, proj_ok = fm
+        cf = F.fn(pred[1])
+        caps = captures(F, pred)
+        from rules import vocab as V
+        addr_params = [n for n, l, t in C.params_of(F.owner_fn(Ch), r'String|str')]
+        bitmap = [n for n, ex in caps.items()
+                  if len(addr_params) == 1 and show(mirq.init_of(ex)).replace('std::ops::Index::', '') == 'index(self.%s, %s).%s' % (V.peers_map(F), addr_params[0], V.peer_bitmap(F))]
+        rows = closure_truth(F, cf)
+        trues = [a for a, r in rows if r is True]
+        need = {'count>0': bool(trues), 'peer-has': bool(trues) and bool(bitmap)}
+        for a in trues:
+            need['count>0'] = need['count>0'] and any(k.startswith('std::cmp::PartialOrd::gt(') and k.endswith('.1, 0)') and v is True for k, v in a.items())
+            need['peer-has'] = need['peer-has'] and any(('index(%s, ' % bitmap[0]) in k.replace('std::ops::Index::', '') and k.rstrip(')').endswith('.0') and v is True
+                                                         for k, v in a.items()) if bitmap else False
+        rec.site(cf, None, 'find predicate true only if %s' % [sorted(a) for a in trues][:2])
+        rec.need(proj_ok, 'some-not-index', Ch, None, 'the value mapped out of the found element is not its piece index')
+        for k, v in need.items():
+            rec.site(cf, None, 'Some only if %s: %s' % (k, v))
+            rec.need(v, 'some-unguarded/' + k, Ch, find[3], 'a piece can be chosen without the guard %s' % k)
+        return
     rec.need(bool(somes), 'never-some', Ch, None, 'chooser never returns a piece')
     for bi, e in somes:
         idx = show(e[4][0][1])
@@ -258,6 +310,14 @@ def r4(cx, rec):
     F = cx.F
     Ch = chooser(F)
     nones = [bi for bi, si, e in mirq.agg_sites(Ch, r'^std::option::Option$', 'None') if any(s2['k'] == 'assign' and s2['lhs']['l'] == 0 for s2 in Ch.blocks[bi]['s'])]
+    fm = find_map_form(F, Ch) if not nones else None
+    if fm:
+        # Iterator::find yields None exactly when every element was examined and none satisfied the predicate
+        srt = [bb for bb in mirq.real_calls(Ch) if (Ch.expr_call(bb)[4].get('name') or '').startswith('sort')]
+        vec_ok = bool(srt) and mirq.root_var(fm[0][2][0]) == mirq.root_var(Ch.expr_call(srt[0])[2][0])
+        rec.site(Ch, fm[0][3], 'None = Iterator::find over the sorted candidates found nothing: %s' % vec_ok)
+        rec.need(vec_ok, 'none-before-exhaustion', Ch, fm[0][3], 'the search does not run over the sorted candidate vector')
+        return
     rec.need(bool(nones), 'never-none', Ch, None, 'chooser never returns None')
     sorts = [bb for bb in mirq.real_calls(Ch) if (Ch.expr_call(bb)[4].get('name') or '').startswith('sort')]
     for nb in nones:
